@@ -477,6 +477,7 @@ fn subsets_reference(p: &SubPlan) -> SubRef {
 fn gen_for_flavour(w: &mut Rng, flavour: &str) -> ModuleSet {
     let mut cfg = c12_gen_cfg();
     cfg.value_import_bias = w.chance(1, 3);
+    cfg.recursion_bias = w.chance(1, 2);
     match flavour {
         "xmod-enumeral" => {
             cfg.xmod_same_enumeral = true;
